@@ -457,7 +457,11 @@ def run(ctx, R, tier):
     from ..report import Rules
     from . import c06
     R6 = Rules("C06")
-    c06.run(ctx, R6, tier)
+    try:
+        c06.run(ctx, R6, tier)
+    except AnalysisError as _shared_x:
+        # the other property's own anchors are gone on this tree: its check reports that; what it produced before is still shared
+        R.note("obligations shared from C06 are incomplete on this tree: %s" % _shared_x)
     for o in R6.obs:
         if o.rule == "C06-R7":
             R.add("C01-R3", o.key.split("|", 1)[1], o.desc, o.ok, o.loc, o.detail)
